@@ -1,12 +1,17 @@
 ------------------------------ MODULE C11_TEBD ------------------------------
 (***************************************************************************)
 (* C11 - state machine of one TEBD object driven through its public calls  *)
-(* (update_to, at_times, step).  Each action runs the implementation-      *)
-(* shaped transcription of C11_Impl; the invariants are the property-level *)
-(* statements of C11_Defs evaluated on the layers the call applied:        *)
+(* update_to, at_times, step(order, dt, queue) and sweep(direction, frac,  *)
+(* dt, queue).  Each action runs the implementation-shaped transcription   *)
+(* of C11_Impl; the invariants are the property-level statements of        *)
+(* C11_Defs.  Because queue=True leaves a half sweep pending, the product  *)
+(* formula is judged on *segments*: everything performed since the queue   *)
+(* was last empty (`seg`) against the formulas of the step / sweep calls   *)
+(* of the segment (`known`); a closing update_to / at_times contributes a  *)
+(* product X of steps of its order, X = known^-1 * seg.                    *)
 (* TLC checks "what the code does" implies "what must be true" for every   *)
-(* history over the small constants (no depth bound: time only grows, so   *)
-(* the state graph is finite).                                             *)
+(* history over the small constants (time only grows and the number of     *)
+(* direct sweeps is bounded, so the state graph is finite).                *)
 (***************************************************************************)
 EXTENDS C11_Impl, TLC, Json
 
@@ -15,7 +20,11 @@ CONSTANTS Orders,        \* subset of {1, 2, 4}
           Targets,       \* target times (grains)
           TsTargets,     \* times that may appear in the argument of at_times
           MaxTs,         \* longest argument of at_times
-          PublicQueue,   \* TRUE: step(queue=True) is also a public call (undocumented parameter; self-test)
+          MaxSweeps,     \* number of direct sweep() calls in a history
+          MaxQueued,     \* number of calls with queue=True in a history
+          PublicQueue,   \* TRUE: queue=True may be passed to step / sweep
+          DtChangeQueued,\* TRUE: update_to / at_times may change the step while a sweep is queued
+          FixQ,          \* TRUE: a change of _dt keeps the duration of the queued sweep (since fix, see report)
           LeftRenormSite,\* site renormalised after a left sweep in imaginary time (0 since fix 7f3de1c3; 1 before)
           FlipWrap,      \* TRUE: the wrap-around gate is flipped before it is applied (since fix b5edf86a; FALSE before)
           Ls,            \* chain lengths for the derived chain-level invariants
@@ -23,90 +32,123 @@ CONSTANTS Orders,        \* subset of {1, 2, 4}
           SimLen         \* number of calls of a printed behaviour
 
 VARIABLES st,     \* [t, sdt, dt0, queue]
-          cur,    \* layers applied by the last public call
-          last,   \* the last public call [op, order, t0, T, dt]   (dt = step in force during the call)
+          seg,    \* layers performed since the queue was last empty (including the last call)
+          known,  \* formulas of the step / sweep calls of the segment (for a closing update_to: before it)
+          cur,    \* layers performed by the last call alone
+          last,   \* the last public call [op, order, t0, T, dt, q]
           br,     \* branches of the queue logic taken so far (ghost)
-          tot,    \* <<sum of R coefficients, sum of L coefficients>> of every sweep performed since t = 0 (ghost)
+          tot,    \* <<sum of R coefficients, sum of L coefficients>> of every sweep performed (ghost)
+          sw,     \* the same sums over what direct sweep() calls asked for (they do not advance t) (ghost)
+          nsw,    \* number of direct sweep() calls so far
+          nqd,    \* number of calls with queue=True so far
           hist
 
-vars == <<st, cur, last, br, tot, hist>>
+vars == <<st, seg, known, cur, last, br, tot, sw, nsw, nqd, hist>>
 
 Blank(s) == [t |-> s.t, sdt |-> s.sdt, dt0 |-> s.dt0, queue |-> s.queue, layers |-> <<>>, br |-> {}]
 Keep(r) == [t |-> r.t, sdt |-> r.sdt, dt0 |-> r.dt0, queue |-> r.queue]
+Fresh == st.queue = <<>>          \* the queue is empty: a new segment starts with the next call
 
-Commit(r, call) ==
+Commit(r, call, add) ==
   /\ st' = Keep(r)
   /\ cur' = r.layers
+  /\ seg' = (IF Fresh THEN <<>> ELSE seg) \o r.layers
+  /\ known' = (IF Fresh THEN <<>> ELSE known) \o add
   /\ last' = call
+  /\ nqd' = IF call.q THEN nqd + 1 ELSE nqd
   /\ br' = br \cup r.br
   /\ tot' = <<CAdd(tot[1], SumClass(r.layers, "R")), CAdd(tot[2], SumClass(r.layers, "L"))>>
   /\ hist' = IF Record THEN Append(hist, [call |-> call, t |-> r.t, dt0 |-> r.dt0, nlayers |-> Len(r.layers)]) ELSE hist
 
 Init ==
   /\ \E d0 \in Dts \cup {DtNone} : st = [t |-> 0, sdt |-> d0, dt0 |-> d0, queue |-> <<>>]
-  /\ cur = <<>>
+  /\ cur = <<>> /\ seg = <<>> /\ known = <<>>
   /\ last = [op |-> "init", order |-> 0, t0 |-> 0, T |-> 0, dt |-> 0, q |-> FALSE]
   /\ br = {}
-  /\ tot = <<CZero, CZero>>
+  /\ tot = <<CZero, CZero>> /\ sw = <<CZero, CZero>> /\ nsw = 0 /\ nqd = 0
   /\ hist = <<>>
 
 MaxT == CHOOSE m \in Targets : \A x \in Targets : x <= m
 DtOK(dtc) == dtc # DtNone \/ st.dt0 # DtNone
+NewDt(dtc) == IF dtc = DtNone THEN st.dt0 ELSE dtc
+\* the step may only be changed with an empty queue unless the configuration explores that too
+ChangeOK(dtc) == IF st.queue = <<>> \/ st.sdt = NewDt(dtc) THEN TRUE
+                 ELSE DtChangeQueued /\ (FixQ \/ RescaleExact(Blank(st), dtc))
 
 UpdateTo(T, dtc, order) ==
-  /\ T >= st.t /\ DtOK(dtc) /\ RescaleExact(Blank(st), dtc)
-  /\ \E r \in {IUpdateTo(Blank(st), T, dtc, order)} :
-     Commit(r, [op |-> "update_to", order |-> order, t0 |-> st.t, T |-> T, dt |-> r.sdt, q |-> FALSE,
-                args |-> [T |-> T, dt |-> dtc, order |-> order]])
+  /\ T >= st.t /\ DtOK(dtc) /\ ChangeOK(dtc)
+  /\ \E r \in {IUpdateToQ(Blank(st), T, dtc, order, FixQ)} :
+     /\ Commit(r, [op |-> "update_to", order |-> order, t0 |-> st.t, T |-> T, dt |-> r.sdt, q |-> FALSE,
+                   args |-> [T |-> T, dt |-> dtc, order |-> order]], <<>>)
+     /\ UNCHANGED <<sw, nsw>>
 
 AtTimes(ts, dtc, order) ==
   /\ \A k \in 1..Len(ts) : ts[k] >= st.t
-  /\ DtOK(dtc) /\ RescaleExact(Blank(st), dtc)
-  /\ \E r \in {IAtTimes(Blank(st), ts, dtc, order)} :
-     Commit(r, [op |-> "at_times", order |-> order, t0 |-> st.t, T |-> SortTs(ts)[Len(ts)], dt |-> r.sdt, q |-> FALSE,
-                args |-> [ts |-> ts, dt |-> dtc, order |-> order]])
+  /\ DtOK(dtc) /\ ChangeOK(dtc)
+  /\ \E r \in {IAtTimesQ(Blank(st), ts, dtc, order, FixQ)} :
+     /\ Commit(r, [op |-> "at_times", order |-> order, t0 |-> st.t, T |-> SortTs(ts)[Len(ts)], dt |-> r.sdt, q |-> FALSE,
+                   args |-> [ts |-> ts, dt |-> dtc, order |-> order]], <<>>)
+     /\ UNCHANGED <<sw, nsw>>
 
 Step(order, dtc, q) ==
   /\ st.sdt # DtNone
-  /\ q => PublicQueue
+  /\ q => (PublicQueue /\ nqd < MaxQueued)
   /\ \E r \in {IStep(Blank(st), order, dtc, q)}, dteff \in {IF dtc = DtNone THEN st.sdt ELSE dtc} :
      /\ r.t <= MaxT                    \* keep the graph finite: steps are not bounded by a target
      /\ Commit(r, [op |-> "step", order |-> order, t0 |-> st.t, T |-> st.t + dteff, dt |-> dteff, q |-> q,
-                   args |-> [dt |-> dtc, order |-> order]])
+                   args |-> [dt |-> dtc, order |-> order, q |-> q]], StepFormula(order, dteff))
+     /\ UNCHANGED <<sw, nsw>>
+
+Sweep(d, fp, dtc, q) ==
+  /\ st.sdt # DtNone /\ nsw < MaxSweeps
+  /\ q => (PublicQueue /\ nqd < MaxQueued)
+  /\ \E r \in {IPubSweep(Blank(st), d, fp, dtc, q)}, c \in {CMulInt(<<fp, 0>>, IF dtc = DtNone THEN st.sdt ELSE dtc)} :
+     /\ Commit(r, [op |-> "sweep", order |-> 0, t0 |-> st.t, T |-> st.t, dt |-> 0, q |-> q,
+                   args |-> [d |-> d, fp |-> fp, dt |-> dtc, q |-> q]], <<Lay(d, c)>>)
+     /\ sw' = IF d = "R" THEN <<CAdd(sw[1], c), sw[2]>> ELSE <<sw[1], CAdd(sw[2], c)>>
+     /\ nsw' = nsw + 1
 
 TsArgs == UNION {[1..n -> TsTargets] : n \in 1..MaxTs}
 
 UpdateToA == \E T \in Targets, dtc \in Dts \cup {DtNone}, order \in Orders : UpdateTo(T, dtc, order)
 AtTimesA  == \E ts \in TsArgs, dtc \in Dts \cup {DtNone}, order \in Orders : AtTimes(ts, dtc, order)
 StepA     == \E order \in Orders, dtc \in Dts \cup {DtNone}, q \in BOOLEAN : Step(order, dtc, q)
+SweepA    == \E d \in {"R", "L"}, fp \in {1, 2}, dtc \in Dts \cup {DtNone}, q \in BOOLEAN : Sweep(d, fp, dtc, q)
 
-Next == UpdateToA \/ AtTimesA \/ StepA
+Next == UpdateToA \/ AtTimesA \/ StepA \/ SweepA
 Spec == Init /\ [][Next]_vars
 
 (* --------------------- property-level invariants ------------------------ *)
 Called == last.op # "init"
-Drains == Called /\ ~last.q            \* every documented public call drains the queue
+Closing == Called /\ last.op \in {"update_to", "at_times"}
+Direct == Called /\ last.op \in {"step", "sweep"}
+\* what the closing update_to / at_times contributed to the segment
+X == LeftDivide(known, seg)
 
-\* t = T after update_to(T) / at_times(ts) (T = max ts) / step
+\* t = T after update_to(T) / at_times(ts) (T = max ts) / step; a direct sweep leaves t alone
 TimeExact == Called => st.t = last.T
 
-QueueDrained == Drains => st.queue = <<>>
+\* every call without queue=True leaves nothing pending
+QueueDrained == (Called /\ ~last.q) => st.queue = <<>>
 
-\* what the call applied is a product of steps of the requested order adding up to the elapsed time
-ProductFormula == Drains => IsProductFormula(last.order, cur, last.t0, last.T)
-ClassSumsOK    == Drains => ClassSums(cur, last.t0, last.T)
-StepsWithinDt  == Drains => StepsWithin(last.order, cur, last.dt)
-Symmetric      == Drains => SymmetricProduct(last.order, cur)
+\* direct calls: what was performed so far is the requested formulas, up to the one pending (queued) layer
+\* closing calls: after the requested formulas, a product of steps of the requested order up to the target
+ProductFormula ==
+  /\ Direct => LET rest == LeftDivide(seg, known) IN
+               IF last.q THEN Len(rest) <= 1 ELSE rest = <<>>
+  /\ Closing => IsProductFormula(last.order, X, last.t0, last.T)
+ClassSumsOK   == Closing => ClassSums(X, last.t0, last.T)
+StepsWithinDt == Closing => StepsWithin(last.order, X, last.dt)
+Symmetric     == Closing => SymmetricProduct(last.order, X)
 
-\* over the whole history: what was performed, plus what is still queued, adds up to the current time in
-\* each class.  Holds for the documented calls; with the undocumented public queue=True it is VIOLATED when
-\* the step is changed while a sweep is queued (the queued fraction is relative to _dt): self-test MC_pubqueue
+\* over the whole history: performed + queued = elapsed time + what direct sweeps asked for, per class
 TotalSums ==
   LET qd(d) == IF st.queue # <<>> /\ st.queue[1] = d THEN st.queue[2] ELSE CZero IN
-  CAdd(tot[1], qd("R")) = CRat(st.t) /\ CAdd(tot[2], qd("L")) = CRat(st.t)
+  /\ CAdd(tot[1], qd("R")) = CAdd(CRat(st.t), sw[1])
+  /\ CAdd(tot[2], qd("L")) = CAdd(CRat(st.t), sw[2])
 
-\* imaginary time: after the call the state has norm one (every sweep renormalises the centre tensor)
-ImagNormalised == Drains => \A L \in Ls : NormalisedAfter(cur, L, LeftRenormSite)
+\* imaginary time: after a call that performed sweeps the state has norm one (every sweep renormalises the centre)
+ImagNormalised == Called => \A L \in Ls : NormalisedAfter(cur, L, LeftRenormSite)
 
 \* chain level (constant): the two sweeps gate every bond once, in the class the documentation gives it,
 \* and (open chains) every gate is applied in the orientation of its stored term
